@@ -419,6 +419,7 @@ func c11(p *model.Prog, r *report.Result) {
 	hs, _ := constant.Int64Val(p.Const("pkg/httpflv", "flvHeaderSize").Val())
 	r.Check(okHdr && hs == int64(len(want)), "C11.R4", "httpflv|const|FlvHeader", p.Pos(g.Pos()), "FLV header bytes as specified, single initialisation", fmt.Sprintf("FlvHeader bytes %v / stores %d / flvHeaderSize %d differ from the 13-byte FLV header with audio+video flags and a zero back-pointer", got, nStores, hs))
 	c11r5(p, r)
+	c11r67(p, r)
 }
 
 func describeMarker(v ssa.Value, isPL func(ssa.Value) bool) string {
